@@ -348,6 +348,26 @@ func oracles(r *run.Runner) {
 		}
 		return w.L(w.F(w.AsFlt(a[1]) / ownWidth(f[0], f[1], f[2])))
 	}
+	// the corridor's measuring loop on the model's candidate list, one reused Measure (vdist.go)
+	r.Oracles["mloop"] = func(a []w.Val) w.Val {
+		if len(a) != 3 || !shapesOK(a[:2], "pp") || isNil(a[0]) || isNil(a[1]) {
+			return w.Panic{}
+		}
+		return limited(func() w.Val {
+			lon1, lat1, _ := pointFields(a[0])
+			lon2, lat2, _ := pointFields(a[1])
+			ds, ok := measureLoop(lon1, lat1, lon2, lat2, w.AsStrs(a[2]))
+			out := w.List{}
+			for i := range ds {
+				if ok[i] {
+					out = append(out, w.F(ds[i]))
+				} else {
+					out = append(out, w.Err{V: w.Nil{}})
+				}
+			}
+			return out
+		})
+	}
 	// closest_go between the segment and each voxel, a fresh Measure per voxel (vdist.go)
 	r.Oracles["gjk"] = func(a []w.Val) w.Val {
 		if len(a) != 3 || !shapesOK(a[:2], "pp") || isNil(a[0]) || isNil(a[1]) {
